@@ -225,6 +225,21 @@ func (x *saveX) stmt(s ast.Stmt) error {
 			if len(t.Body.List) != 1 {
 				return fmt.Errorf("unrecognised guarded block: %s", src)
 			}
+			// `if err == nil { if err = os.Rename(path, path+"…"); errors.Is(err, os.ErrNotExist) { err = nil } }`:
+			// the store path is renamed away (a missing store is not an error)
+			if inner, ok := t.Body.List[0].(*ast.IfStmt); ok && inner.Init != nil && inner.Else == nil &&
+				x.p.Src(inner.Cond) == "errors.Is(err, os.ErrNotExist)" && len(inner.Body.List) == 1 && x.p.Src(inner.Body.List[0]) == "err = nil" {
+				if a, call := assignsErrFrom(inner.Init); a != nil && len(a.Lhs) == 1 && a.Tok == token.ASSIGN {
+					ce := call.(*ast.CallExpr)
+					path := x.recv + ".path"
+					if x.callName(ce) == "os.Rename" && len(ce.Args) == 2 && x.p.Src(ce.Args[0]) == path &&
+						strings.HasPrefix(strings.ReplaceAll(x.p.Src(ce.Args[1]), " ", ""), path+"+\"") {
+						x.emit("op", "ifOk", "rec", "renameTargetAway")
+						return nil
+					}
+				}
+				return fmt.Errorf("unrecognised guarded statement: %s", src)
+			}
 			a, call := assignsErrFrom(t.Body.List[0])
 			if a == nil || len(a.Lhs) != 1 || a.Tok != token.ASSIGN {
 				return fmt.Errorf("unrecognised guarded statement: %s", src)
